@@ -129,6 +129,24 @@ fn one_case(ctx: &mut Ctx, idx: usize, w: Vec<f64>, stage: usize, alpha: f64, lo
         if !(worst <= 0.001) {
             ctx.violation("spectrum-mismatch", descr().set("worst_error_nepers", worst).set("at_omega", worst_w));
         }
+        // the response to the very first pulse (first frame) must realise the same spectrum
+        if st.first_decayed {
+            let mut worst1 = 0.0f64;
+            for (j, want) in hs.iter().zip(&model) {
+                if *want < peak - 11.5 {
+                    continue;
+                }
+                let e = (st.first_log_mag(st.omega(*j)) - want).abs();
+                if e > worst1 || e.is_nan() {
+                    worst1 = e;
+                }
+            }
+            ctx.count("first_frame_responses_measured", 1.0);
+            ctx.max("worst_first_frame_error_nepers", worst1);
+            if !(worst1 <= 0.001) {
+                ctx.violation("first-frame-spectrum-mismatch", descr().set("worst_error_nepers", worst1));
+            }
+        }
         let dyn_range = peak - model.iter().cloned().fold(f64::INFINITY, f64::min);
         if dyn_range >= 1.0 {
             ctx.nontrivial(mix(&[m as u64, stage as u64, (alpha * 10.0) as u64, log_gain as u64, rate as u64]));
